@@ -239,13 +239,284 @@ def _mentions(e, suffix):
     return False
 
 
+_NOCONST = object()
+
+
+def _constval(x):
+    if isinstance(x, ast.Constant):
+        return x.value
+    if isinstance(x, ast.UnaryOp) and isinstance(x.op, ast.USub) and \
+            isinstance(x.operand, ast.Constant) and isinstance(
+            x.operand.value, (int, float)):
+        return -x.operand.value
+    return _NOCONST
+
+
+def _table_rows(f, it):
+    """[(constants of the row, field names or None)] of a constant table: a
+    tuple/list display of tuples, or of calls of a module-level namedtuple
+    class, written in place, bound once in f or at module level."""
+    mod, v = f.module, it
+    if isinstance(v, ast.Name):
+        vals = [n.value for n in own_nodes(f) if isinstance(n, ast.Assign) and
+                any(isinstance(t, ast.Name) and t.id == v.id
+                    for t in n.targets)] or mod.assigns.get(v.id, [])
+        if len(vals) != 1:
+            return None
+        v = vals[0]
+    if not isinstance(v, (ast.Tuple, ast.List)) or not v.elts:
+        return None
+    rows = []
+    for e in v.elts:
+        fields = None
+        if isinstance(e, (ast.Tuple, ast.List)):
+            elts = e.elts
+        elif isinstance(e, ast.Call) and isinstance(e.func, ast.Name) and \
+                not e.keywords:
+            defs = mod.assigns.get(e.func.id, [])
+            if len(defs) != 1:
+                return None
+            d = defs[0]
+            if not (isinstance(d, ast.Call) and call_name(d) == 'namedtuple'
+                    and len(d.args) >= 2):
+                return None
+            fa = d.args[1]
+            if isinstance(fa, ast.Constant) and isinstance(fa.value, str):
+                fields = fa.value.replace(',', ' ').split()
+            elif isinstance(fa, (ast.Tuple, ast.List)) and all(
+                    isinstance(x, ast.Constant) for x in fa.elts):
+                fields = [x.value for x in fa.elts]
+            else:
+                return None
+            elts = e.args
+            if len(elts) != len(fields):
+                return None
+        else:
+            return None
+        consts = [_constval(x) for x in elts]
+        if any(c is _NOCONST for c in consts):
+            return None
+        rows.append((consts, fields))
+    return rows
+
+
+class _RowSubst(ast.NodeTransformer):
+    """One iteration of a loop over a constant table: loop names replaced by
+    the row's constants, constant sub-expressions and constant tests folded."""
+
+    def __init__(self, names, rowvar, consts, fields):
+        self.names, self.rowvar = names, rowvar
+        self.consts, self.fields = consts, fields or []
+
+    @staticmethod
+    def _c(v, at):
+        return ast.copy_location(ast.Constant(value=v), at)
+
+    def visit_Name(self, n):
+        if isinstance(n.ctx, ast.Load) and n.id in self.names:
+            return self._c(self.names[n.id], n)
+        return n
+
+    def visit_Attribute(self, n):
+        if isinstance(n.value, ast.Name) and n.value.id == self.rowvar and \
+                n.attr in self.fields:
+            return self._c(self.consts[self.fields.index(n.attr)], n)
+        self.generic_visit(n)
+        return n
+
+    def visit_Subscript(self, n):
+        if isinstance(n.value, ast.Name) and n.value.id == self.rowvar and \
+                isinstance(n.slice, ast.Constant) and isinstance(
+                n.slice.value, int) and -len(self.consts) <= n.slice.value < \
+                len(self.consts):
+            return self._c(self.consts[n.slice.value], n)
+        self.generic_visit(n)
+        if isinstance(n.value, ast.Constant) and isinstance(
+                n.value.value, str) and isinstance(
+                n.slice, ast.Constant) and isinstance(n.slice.value, int):
+            try:
+                return self._c(n.value.value[n.slice.value], n)
+            except IndexError:
+                return n
+        return n
+
+    def visit_UnaryOp(self, n):
+        self.generic_visit(n)
+        c = _constval(n.operand)
+        if c is not _NOCONST:
+            if isinstance(n.op, ast.Not):
+                return self._c(not c, n)
+            if isinstance(n.op, ast.USub) and isinstance(c, (int, float)):
+                return self._c(-c, n)
+        return n
+
+    def visit_Compare(self, n):
+        self.generic_visit(n)
+        if len(n.ops) == 1:
+            a, b = _constval(n.left), _constval(n.comparators[0])
+            if a is not _NOCONST and b is not _NOCONST:
+                op = n.ops[0]
+                try:
+                    if isinstance(op, ast.Eq):
+                        return self._c(a == b, n)
+                    if isinstance(op, ast.NotEq):
+                        return self._c(a != b, n)
+                    if isinstance(op, ast.In):
+                        return self._c(a in b, n)
+                    if isinstance(op, ast.NotIn):
+                        return self._c(a not in b, n)
+                    if isinstance(op, ast.Gt):
+                        return self._c(a > b, n)
+                    if isinstance(op, ast.Lt):
+                        return self._c(a < b, n)
+                except TypeError:
+                    return n
+        return n
+
+    def visit_Call(self, n):
+        self.generic_visit(n)
+        if isinstance(n.func, ast.Attribute) and n.func.attr in (
+                'startswith', 'endswith') and len(n.args) == 1 and \
+                not n.keywords:
+            a, b = _constval(n.func.value), _constval(n.args[0])
+            if isinstance(a, str) and isinstance(b, str):
+                return self._c(getattr(a, n.func.attr)(b), n)
+        return n
+
+    def visit_IfExp(self, n):
+        self.generic_visit(n)
+        c = _constval(n.test)
+        if c is not _NOCONST:
+            return n.body if c else n.orelse
+        return n
+
+    def visit_BoolOp(self, n):
+        self.generic_visit(n)
+        # `c and x or y` with c constant is x (when x cannot be false: the
+        # rule only reads the arithmetic inside) or y
+        vals = list(n.values)
+        if isinstance(n.op, ast.And):
+            out = []
+            for v in vals:
+                c = _constval(v)
+                if c is _NOCONST:
+                    out.append(v)
+                elif not c:
+                    return self._c(c, n)
+            if not out:
+                return self._c(True, n)
+            if len(out) == 1:
+                return out[0]
+            n.values = out
+            return n
+        c0 = _constval(vals[0])
+        if c0 is not _NOCONST and not c0 and len(vals) == 2:
+            return vals[1]
+        if isinstance(vals[0], ast.BinOp) or isinstance(vals[0], ast.Call):
+            # `<arithmetic> or y`: the first operand is what is computed
+            return n
+        return n
+
+    def visit_If(self, n):
+        n.test = self.visit(n.test)
+        c = _constval(n.test)
+        if c is not _NOCONST:
+            out = []
+            for st in (n.body if c else n.orelse):
+                r = self.visit(st)
+                out.extend(r if isinstance(r, list) else [r])
+            return out or ast.copy_location(ast.Pass(), n)
+        self.generic_visit(n)
+        return n
+
+
+def _split_sides(ctx, sp):
+    """[(side cut K, bound of the remainder that is set F, step c)] - one per
+    row of the table `_split` iterates over, read off the loop body written
+    out for that row: the store `r[F] = <Z[K]> - c` (through int()/str())."""
+    import copy
+    loops = []
+    for lp in own_nodes(sp):
+        if isinstance(lp, ast.For) and not lp.orelse:
+            rows = _table_rows(sp, lp.iter)
+            if rows:
+                loops.append((lp, rows))
+    if len(loops) != 1:
+        raise AnalysisError('C06.inclusive: the table of sides that _split '
+                            'iterates over was not found')
+    lp, rows = loops[0]
+    out = []
+    for consts, fields in rows:
+        names, rowvar = {}, None
+        if isinstance(lp.target, ast.Name):
+            rowvar = lp.target.id
+        elif isinstance(lp.target, (ast.Tuple, ast.List)) and all(
+                isinstance(e, ast.Name) for e in lp.target.elts) and len(
+                lp.target.elts) == len(consts):
+            names = {e.id: c for e, c in zip(lp.target.elts, consts)}
+        else:
+            raise AnalysisError('C06.inclusive: loop target of _split not '
+                                'recognised')
+        body = []
+        sub = _RowSubst(names, rowvar, consts, fields)
+        for st in copy.deepcopy(lp.body):
+            r = sub.visit(st)
+            body.extend(r if isinstance(r, list) else [r])
+        mod_ = ast.Module(body=body, type_ignores=[])
+        alias = {}
+        for n in ast.walk(mod_):
+            if isinstance(n, ast.Assign) and len(n.targets) == 1 and \
+                    isinstance(n.targets[0], ast.Name) and isinstance(
+                    n.value, ast.Subscript) and isinstance(
+                    n.value.slice, ast.Constant):
+                alias[n.targets[0].id] = n.value
+        found = []
+        for n in ast.walk(mod_):
+            if not (isinstance(n, ast.Assign) and len(n.targets) == 1 and
+                    isinstance(n.targets[0], ast.Subscript) and isinstance(
+                        n.targets[0].slice, ast.Constant) and isinstance(
+                        n.targets[0].slice.value, str)):
+                continue
+            for b in ast.walk(n.value):
+                if isinstance(b, ast.BinOp) and isinstance(
+                        b.op, (ast.Sub, ast.Add)) and isinstance(
+                        _constval(b.right), (int, float)) and not isinstance(
+                        _constval(b.right), bool):
+                    left = b.left
+                    while isinstance(left, ast.Call) and isinstance(
+                            left.func, ast.Name) and left.func.id in (
+                            'int', 'float') and len(left.args) == 1:
+                        left = left.args[0]
+                    if isinstance(left, ast.Name) and left.id in alias:
+                        left = alias[left.id]
+                    if isinstance(left, ast.Subscript) and isinstance(
+                            left.slice, ast.Constant) and isinstance(
+                            left.slice.value, str):
+                        c = _constval(b.right)
+                        found.append((left.slice.value,
+                                      n.targets[0].slice.value,
+                                      c if isinstance(b.op, ast.Sub) else -c))
+        found = sorted(set(found))
+        if len(found) != 1:
+            raise AnalysisError(
+                'C06.inclusive: where _split applies the step of its table '
+                'was not found (row %r: %d candidate stores)' % (
+                    tuple(consts), len(found)))
+        out.append(found[0])
+    return out
+
+
 def rule_inclusive(ctx):
     rr = RuleResult('C06', 'C06.inclusive', 'SIB',
                     'inclusive coordinates: sizes add one, emptiness tests are '
                     'non-strict, splitting steps by one', floor=8)
     p = ctx.project
+    # every module of the package except the function library outside
+    # look.py (whose r1/r2 are not range bounds) and the token classes
     scope = [m for m in p.modules.values() if m.rel in (
-        RANGES, 'formulas/cell.py', 'formulas/functions/look.py')]
+        RANGES, 'formulas/cell.py', 'formulas/functions/look.py',
+        'formulas/builder.py', 'formulas/parser.py') or
+        m.rel.startswith('formulas/excel/')]
     for m in scope:
         for f in m.all_funcs:
             parents = {}
@@ -442,90 +713,45 @@ def rule_inclusive(ctx):
                         rr.ok('%s: row bounds converted with int() before '
                               'ordering (`%s`)' % (f.qualname, norm_src(n)[:60]),
                               '%s:%d' % (m.rel, n.lineno))
-    # (e) _split steps by +-1 and uses matching sign
+    # (e) _split steps by +-1 and uses matching sign: the loop over the table
+    # of sides is written out row by row (constants substituted, constant
+    # tests folded) and each remainder must end one cell outside the overlap
     sp = p.func(RANGES, '_split')
     rr.instances += 1
-    it = None
-
-    def _table(v):
-        return isinstance(v, (ast.Tuple, ast.List)) and len(v.elts) >= 1 and \
-            all(isinstance(e, (ast.Tuple, ast.List)) and len(e.elts) == 3
-                for e in v.elts)
-
-    for n in own_nodes(sp):
-        if isinstance(n, ast.Assign) and _table(n.value):
-            it = n.value
-    if it is None:
-        # the table iterated by the 3-target loop, written inline or kept as
-        # a module-level constant
-        for n in own_nodes(sp):
-            if isinstance(n, ast.For) and isinstance(n.target, ast.Tuple) and \
-                    len(n.target.elts) == 3:
-                if _table(n.iter):
-                    it = n.iter
-                elif isinstance(n.iter, ast.Name):
-                    for v in sp.module.assigns.get(n.iter.id, []):
-                        if _table(v):
-                            it = v
-    if it is None:
-        raise AnalysisError('C06.inclusive: the table of sides that _split '
-                            'iterates over was not found')
-    ok = False
-    if it is not None:
-        try:
-            rows = [tuple(e.value if isinstance(e, ast.Constant) else -e.operand.value
-                          for e in t.elts) for t in it.elts]
-            ok = sorted(rows) == sorted([('n1', 'n2', 1), ('n2', 'n1', -1),
-                                         ('r1', 'r2', 1), ('r2', 'r1', -1)])
-        except Exception:
-            ok = False
-    # the cut: <overlap>[side] - step  (for rows through int()), in _split or
-    # in a private helper the loop hands the step to
-    from ..util import with_helpers
-    steps = []
-    for lp_ in own_nodes(sp):
-        if not (isinstance(lp_, ast.For) and isinstance(
-                lp_.target, ast.Tuple) and len(lp_.target.elts) == 3 and all(
-                isinstance(e, ast.Name) for e in lp_.target.elts)):
-            continue
-        stepvar = lp_.target.elts[2].id
-        for n in ast.walk(lp_):
-            if isinstance(n, ast.BinOp) and isinstance(
-                    n.op, (ast.Sub, ast.Add)) and isinstance(
-                    n.right, ast.Name) and n.right.id == stepvar:
-                steps.append(n)
-            if isinstance(n, ast.Call):
-                for h in with_helpers(ctx, sp)[1:]:
-                    if call_name(n) != h.name:
-                        continue
-                    hp = h.params[1:] if h.cls is not None else h.params
-                    for i_, a in enumerate(n.args):
-                        if isinstance(a, ast.Name) and a.id == stepvar and \
-                                i_ < len(hp):
-                            steps += [m for m in own_nodes(h) if isinstance(
-                                m, ast.BinOp) and isinstance(
-                                m.op, (ast.Sub, ast.Add)) and isinstance(
-                                m.right, ast.Name) and m.right.id == hp[i_]]
-    added = [n for n in steps if isinstance(n.op, ast.Add)]
-    if ok and len(steps) >= 1 and not added:
+    sides = _split_sides(ctx, sp)
+    want = {'n1': ('n2', 1), 'n2': ('n1', -1), 'r1': ('r2', 1), 'r2': ('r1', -1)}
+    bad = [(k, f_, c) for k, f_, c in sides if want.get(k) != (f_, c)]
+    missing = sorted(set(want) - {k for k, _f, _c in sides})
+    if not bad and not missing:
         rr.ok('_split cuts the remainder at (overlap bound -/+ 1) on each of '
               'the four sides', RANGES)
-    elif ok and not steps:
-        raise AnalysisError('C06.inclusive: where _split applies the step of '
-                            'its table was not found')
     else:
         rr.fail(key_of(sp, 'split step'),
                 '_split no longer cuts the four remainders exactly one cell '
-                'outside the overlap (table %s%s)' % (
-                    norm_src(it) if it is not None else '?',
-                    '; the step is added, not subtracted' if added else ''),
+                'outside the overlap (%s)' % (
+                    '; '.join(['side %s: remainder bound %s = overlap %s - (%s)'
+                               % (k, f_, k, c) for k, f_, c in bad] +
+                              ['side %s not cut' % k for k in missing])),
                 file=RANGES, function='_split', line=sp.lineno)
     # merge adjacency: base.r2 + 1 >= rng.r1 ; base.n2 + 1 == rng.n1
     from ..util import path_conditions
     for fn, want, key_ in (
             ('_merge_raw_update', "int({b}['r2']) + 1 >= int({r}['r1'])", 'r2'),
             ('_merge_col_update', "{b}['n2'] + 1 == {r}['n1']", 'n2')):
-        f = p.func(RANGES, fn)
+        # the function is found by what it does - it extends its first
+        # parameter's `key_` bound to that of its second - and by name
+        # otherwise
+        role = []
+        for g in p.module(RANGES).all_funcs:
+            if g.cls is None and g.parent is None and len(g.params) >= 2 and \
+                    any(isinstance(n, ast.Assign) and len(n.targets) == 1 and
+                        norm_src(n.targets[0]) == "%s['%s']" % (
+                            g.params[0], key_) and norm_src(n.value) ==
+                        "%s['%s']" % (g.params[1], key_)
+                        for n in own_nodes(g)):
+                role.append(g)
+        f = role[0] if len(role) == 1 else p.func(RANGES, fn)
+        fn = f.name
         rr.instances += 1
         b_, r_ = (f.params + ['base', 'rng'])[:2]
         want = want.format(b=b_, r=r_)
@@ -540,9 +766,18 @@ def rule_inclusive(ctx):
                 for t, pol in path_conditions(f, n):
                     conj = t.values if isinstance(t, ast.BoolOp) and \
                         isinstance(t.op, ast.And) and pol else [t]
+                    inv = {ast.Lt: ast.GtE, ast.Gt: ast.LtE, ast.LtE: ast.Gt,
+                           ast.GtE: ast.Lt}
                     for c in conj:
                         if pol:
                             cmps.append(norm_src(c))
+                        elif isinstance(c, ast.Compare) and len(
+                                c.ops) == 1 and type(c.ops[0]) in inv:
+                            # integers: `not a < b` is `a >= b`
+                            import copy as _copy
+                            c2 = _copy.copy(c)
+                            c2.ops = [inv[type(c.ops[0])]()]
+                            cmps.append(norm_src(c2))
         if want in cmps or ('(%s)' % want) in cmps or any(
                 c.replace('(', '').replace(')', '') ==
                 want.replace('(', '').replace(')', '') for c in cmps):
